@@ -18,6 +18,23 @@ EXTENDS Isa, SourceInfo, FiniteSets, TLC
 IO_START_A == 65024
 
 Upper(name) == [i \in 1..Len(name) |-> IF name[i] >= 97 /\ name[i] <= 122 THEN name[i] - 32 ELSE name[i]]
+\* Names are sequences of characters (code points); the source is a sequence of UTF-8 bytes.  A label
+\* occupies Utf8Len(name) bytes of the source, and the characters of a byte span are DecodeUtf8 of it
+\* (<<-1>> in place of anything that is not the start of a whole character: a span that cuts one).
+Utf8Len1(c) == IF c < 128 THEN 1 ELSE IF c < 2048 THEN 2 ELSE IF c < 65536 THEN 3 ELSE 4
+RECURSIVE Utf8Len(_)
+Utf8Len(name) == IF name = <<>> THEN 0 ELSE Utf8Len1(Head(name)) + Utf8Len(Tail(name))
+RECURSIVE DecodeUtf8(_)
+DecodeUtf8(b) ==
+  IF b = <<>> THEN <<>>
+  ELSE LET c == b[1]
+           n == IF c < 128 THEN 1 ELSE IF c >= 192 /\ c < 224 THEN 2 ELSE IF c >= 224 /\ c < 240 THEN 3 ELSE IF c >= 240 /\ c < 248 THEN 4 ELSE 0
+       IN IF n = 0 \/ n > Len(b) \/ \E k \in 2..n : b[k] < 128 \/ b[k] >= 192 THEN <<-1>>
+          ELSE <<CASE n = 1 -> c
+                   [] n = 2 -> (c - 192) * 64 + (b[2] - 128)
+                   [] n = 3 -> (c - 224) * 4096 + (b[2] - 128) * 64 + (b[3] - 128)
+                   [] OTHER -> (c - 240) * 262144 + (b[2] - 128) * 4096 + (b[3] - 128) * 64 + (b[4] - 128)>>
+               \o DecodeUtf8(SubSeq(b, n + 1, Len(b)))
 
 IsInstrK(k)  == k \notin {".orig", ".fill", ".blkw", ".stringz", ".end", ".external"}
 Size(n) == CASE n.k = ".fill" -> 1 [] n.k = ".blkw" -> n.a [] n.k = ".stringz" -> Len(n.strb) + 1
@@ -36,7 +53,7 @@ AddLabel(labels, l, addr, ext) ==
   IF key \in DOMAIN labels
   THEN IF labels[key].addr # addr
        THEN [ok |-> FALSE, labels |-> labels,
-             err |-> Err("OverlappingLabels", <<Span(labels[key].src, labels[key].src + Len(key)), Span(l.s, l.e)>>, key)]
+             err |-> Err("OverlappingLabels", <<Span(labels[key].src, labels[key].src + Utf8Len(key)), Span(l.s, l.e)>>, key)]
        ELSE [ok |-> TRUE, labels |-> labels, err |-> Err("none", <<>>, <<>>)]
   ELSE [ok |-> TRUE, labels |-> (key :> [addr |-> addr, src |-> l.s, ext |-> ext]) @@ labels,
         err |-> Err("none", <<>>, <<>>)]
